@@ -1140,9 +1140,24 @@ def _rwc_homogeneous_n_h_using_partial_selection(
             yield (outcomes, count)
 
 
-@cache
 def _selected_distros_memoized(
     h: H,
+    n: int,
+    k: int,
+    from_right: bool,
+) -> tuple[_RollProbT, ...]:
+    # H.__eq__ and H.__hash__ deliberately ignore scale, zero counts, and outcome types
+    # (e.g., 1 == 1.0), but memoized rolls carry the outcomes themselves, so the memo
+    # is additionally keyed on precisely what the histogram contains
+    h_key = tuple((type(outcome), outcome, count) for outcome, count in h.items())
+
+    return _selected_distros_memoized_exact(h, h_key, n, k, from_right)
+
+
+@cache
+def _selected_distros_memoized_exact(
+    h: H,
+    h_key: tuple[tuple[type, RealLike, int], ...],
     n: int,
     k: int,
     from_right: bool,
